@@ -12,7 +12,9 @@ package suites
 //   snapshots-share-memory        a write through one snapshot changed another one the client never aliased with it
 //   getter-results-disagree       LookupUser / LookupChannel of a tracked name differs from the element of Users() / Channels()
 //   member-getter-live-object     the same three, for objects returned by User.Channels /
-//                                 Channel.Users (state.go), which return the tracked objects themselves
+//                                 Channel.Users / Trusted / Admins (state.go), which are documented to
+//                                 return references: an observation, only suite heap.members (not in
+//                                 conf/C13.json) can report it
 
 import (
 	"fmt"
@@ -634,7 +636,7 @@ func heapEvent(r *rand.Rand) Ev {
 		case 0:
 			e.Params = []string{ch, Pick(r, "+o", "-o", "+v", "-v", "+ov"), heapNicks[r.Intn(len(heapNicks))], heapNicks[r.Intn(len(heapNicks))]}
 		case 1:
-			e.Params = []string{ch, Pick(r, "+k", "+l", "+kl"), Pick(r, "key", "5"), "7"}
+			e.Params = []string{ch, Pick(r, "+k", "+l", "+kl", "+l", "+k"), Pick(r, "key", "5", "10", "20", "sesame"), Pick(r, "7", "30")}
 		case 2:
 			e.Params = []string{ch, Pick(r, "+nt", "-n", "+m-t", "-k", "-l", "+s")}
 		default:
@@ -692,7 +694,7 @@ func heapMutation(r *rand.Rand, nsnaps int) heapOp {
 		id = r.Intn(nsnaps + 1)
 	}
 	if r.Intn(6) == 0 {
-		return heapOp{Tag: "A", ID: id, Flags: Pick(r, "+m", "-n", "+k", "+l-t", "-k", "+ntk", "+b"), Args: []string{Pick(r, "k2", "9", "*!*@x")}}
+		return heapOp{Tag: "A", ID: id, Flags: Pick(r, "+m", "-n", "+k", "+l-t", "-k", "+ntk", "+b", "+l", "+k", "+kl"), Args: []string{Pick(r, "k2", "9", "*!*@x", "10", "20"), "40"}}
 	}
 	f := Pick(r, "elem", "elem", "elem", "append", "append", "sort", "delete", "delete", "trunc", "alias", "nick", "ident", "host", "name",
 		"account", "away", "cname", "topic", "nilperms")
@@ -722,6 +724,41 @@ func heapSnapOp(r *rand.Rand) heapOp {
 	return heapOp{Tag: "S", Kind: "chans"}
 }
 
+// heapFragment returns a short scripted scenario around one channel: situations in which
+// sharing would need a specific order of events to show. base = number of snapshots taken
+// so far; the second result is the number of snapshots the fragment adds.
+func heapFragment(r *rand.Rand, base int) ([]heapOp, int) {
+	ch := heapChans[r.Intn(len(heapChans))]
+	a, b := heapNicks[r.Intn(len(heapNicks))], heapNicks[r.Intn(len(heapNicks))]
+	snap := heapOp{Tag: "S", Kind: "chan", Name: ch}
+	if r.Intn(3) == 0 {
+		snap = heapOp{Tag: "S", Kind: "chans"}
+	}
+	id := base // with "chans" the channel may be any of the new ones: writes then go to the first
+	switch r.Intn(4) {
+	case 0: // a mode with an argument is set, snapshot, the same mode is set again with another argument
+		m := Pick(r, "+l", "+k")
+		v1, v2 := Pick(r, "10", "key", "5"), Pick(r, "20", "sesame", "99")
+		return []heapOp{heapE(a, "JOIN", ch), heapE(a, "MODE", ch, m, v1), snap, heapE(b, "MODE", ch, m, v2),
+			{Tag: "I", ID: id}, {Tag: "R"}}, 1
+	case 1: // the same through the snapshot: Modes.Apply re-sets a mode the tracked channel has
+		m := Pick(r, "+l", "+k")
+		return []heapOp{heapE(a, "JOIN", ch), heapE(a, "MODE", ch, m, Pick(r, "10", "key")), snap,
+			{Tag: "A", ID: id, Flags: m, Args: []string{Pick(r, "20", "sesame")}}, {Tag: "R"}, {Tag: "I", ID: id}}, 1
+	case 2: // a channel whose list became empty but keeps its capacity; the snapshot appends, somebody joins
+		ops := []heapOp{heapE(a, "JOIN", ch), heapE("me", "PART", ch), heapE(a, "JOIN", ch), heapE(a, Pick(r, "PART", "QUIT"), ch), snap,
+			{Tag: "M", ID: id, Field: "append", Value: "mallory"}, heapE(b, "JOIN", ch), {Tag: "I", ID: id}, {Tag: "R"}}
+		if r.Intn(2) == 0 { // or the other way round: join first, then the append on the old snapshot
+			ops[5], ops[6] = ops[6], ops[5]
+		}
+		return ops, 1
+	default: // a user whose channel list became empty in place (PART of its only channel is followed by removal, so use two)
+		return []heapOp{heapE(a, "JOIN", ch), {Tag: "S", Kind: "user", Name: a}, heapE(a, "PART", ch), heapE(a, "JOIN", ch),
+			{Tag: "S", Kind: "user", Name: a}, {Tag: "M", ID: base + 1, Field: "append", Value: "#zzz"}, heapE(a, "JOIN", heapChans[r.Intn(len(heapChans))]),
+			{Tag: "I", ID: base}, {Tag: "I", ID: base + 1}}, 2
+	}
+}
+
 func heapGenOps(r *rand.Rand, event func(*rand.Rand) Ev, members bool) Case {
 	ops := heapPrelude(r)
 	n := 4 + r.Intn(22)
@@ -743,7 +780,11 @@ func heapGenOps(r *rand.Rand, event func(*rand.Rand) Ev, members bool) Case {
 		}
 	}
 	for i := 0; i < n; i++ {
-		switch k := r.Intn(20); {
+		switch k := r.Intn(21); {
+		case k == 20:
+			f, add := heapFragment(r, nsnaps)
+			ops = append(ops, f...)
+			nsnaps += add
 		case k < 7:
 			ops = append(ops, heapOp{Tag: "E", Ev: event(r)})
 		case k < 11:
@@ -806,6 +847,14 @@ func heapFixed() []Case {
 		// equal lists in different objects: #a and #c have the same members
 		mk(heapE("me", "JOIN", "#c"), heapE("srv", "353", "me", "=", "#c", "me @alice +bob carol"), heapOp{Tag: "S", Kind: "chans"},
 			heapOp{Tag: "M", ID: 0, Field: "elem", Index: 1, Value: "zzz"}, heapOp{Tag: "S", Kind: "users"}, heapOp{Tag: "M", ID: 4, Field: "elem", Index: 0, Value: "#q"}),
+		// a mode with an argument is set again after a snapshot / through a snapshot
+		mk(heapE("x", "MODE", "#a", "+l", "10"), heapOp{Tag: "S", Kind: "chan", Name: "#a"}, heapE("x", "MODE", "#a", "+l", "20"), heapOp{Tag: "I", ID: 0},
+			heapOp{Tag: "S", Kind: "chan", Name: "#a"}, heapOp{Tag: "A", ID: 1, Flags: "+l", Args: []string{"30"}}, heapOp{Tag: "R"}),
+		// an empty list that still has capacity: #x is tracked through bob's JOIN, bob leaves, the snapshot appends, carol joins
+		mk(heapE("bob", "JOIN", "#x"), heapE("bob", "PART", "#x"), heapOp{Tag: "S", Kind: "chan", Name: "#x"},
+			heapOp{Tag: "M", ID: 0, Field: "append", Value: "mallory"}, heapE("carol", "JOIN", "#x"), heapOp{Tag: "I", ID: 0}, heapOp{Tag: "R"}),
+		mk(heapE("bob", "JOIN", "#x"), heapE("bob", "PART", "#x"), heapOp{Tag: "S", Kind: "chan", Name: "#x"},
+			heapE("carol", "JOIN", "#x"), heapOp{Tag: "M", ID: 0, Field: "append", Value: "mallory"}, heapOp{Tag: "R"}),
 		heapEncode("me", "user", nil),
 	}
 }
